@@ -71,7 +71,7 @@ for _pid, _title, _what in [
   ("C02", "invalid samples rejected", "every sample labelled invalid is rejected by the validator; Coq: each bound keyword is violated by one of the numbers marked invalid, enum non-members are not members"),
   ("C12", "constraints fenced on both sides", "every single-constraint relaxation (type, declared required property, numeric bound) changes the verdict of some sample; Coq: fence lemmas of the builder for numeric bounds, enum members, forbidden types (C12_type_fenced) and omitted required properties (C12_required_fenced)"),
   ("C06", "normalisation preserves acceptance", "extended validator (NOT_enum / NOT_multipleOf) agrees on the schema and on normalize(schema) over an instance grid (equality for full merge, implication for reduced merge); Coq (keyword level, coq/JsonValid.v): every scalar inverter (bounds, lengths, item counts, enum, type) is satisfied exactly by the instances that violate the keyword, _merge is characterised key by key and is a conjunction on sets of bounds"),
-  ("C07", "XML documents validate / do not validate", "xmlschema validates every document labelled valid and rejects every document labelled invalid (schemas without emptiable choice branches), numeric draws forced to both ends of their range; the executable Coq model of xml_schema/parse.py + xpath.py (coq/Xml.v: tag handlers, _repeat, type table, restrictions, resolve, optimize, and the document a path builds) is compared with the implementation on every generated schema (stream X: canonical graph with payloads, entries, labels, documents; the numbers drawn at parse time are an input of the model); Coq: C07_repeat_bounds, C07_repeat_unbounded, C07_repeat_empty_label, C07_attribute_fixed_fence (parse_attribute on a fixed attribute: omission leaf valid exactly when use is not required, present branch with exactly the fixed value marked valid and a different value marked invalid, earlier graph untouched; coq/XmlFence.v)"),
+  ("C07", "XML documents validate / do not validate", "xmlschema validates every document labelled valid and rejects every document labelled invalid (schemas without emptiable choice branches), numeric draws forced to both ends of their range; the executable Coq model of xml_schema/parse.py + xpath.py (coq/Xml.v: tag handlers, _repeat, type table, restrictions, resolve, optimize, and the document a path builds) is compared with the implementation on every generated schema (stream X: canonical graph with payloads, entries, labels, documents; the numbers drawn at parse time are an input of the model); Coq: C07_repeat_bounds, C07_repeat_unbounded, C07_repeat_empty_label, C07_repeat_alternatives (every alternative below the decision of _repeat is the empty leaf -- valid exactly when minOccurs = 0 --, k occurrences with k = minOccurs or k = maxOccurs, or minOccurs - 1 occurrences followed by a leaf marked invalid; for every child, bounds and earlier graph), C07_repeat_offers (each of these boundary cases is offered), C07_attribute_omission_label (every attribute declaration the handler accepts, with the real recursive parser for its children: the leaf created for 'attribute left out' is marked valid in the returned graph exactly when use is not required), C07_attribute_fixed_fence (parse_attribute on a fixed attribute: omission leaf valid exactly when use is not required, present branch with exactly the fixed value marked valid and a different value marked invalid, earlier graph untouched; coq/XmlFence.v)"),
   ("C10", "OpenAPI request labels", "every request of generate_all is taken apart (applied parameter / body leaves), each carried raw value judged by jsonschema against its parameter / body schema, required parts checked, method and placeholder-free path checked, and compared with the label; the request graph is an instance of the C03 theorem (its well-formedness is checked by the model's wfb on the dumped node table)"),
   ("C13", "history independence", "random histories of parse / normalize / generate_paths / execute calls followed by a probe, compared with the probe run first in a fresh interpreter (same hash seed and random seed); inputs deep-compared before / after; repeated execute compared; Coq (core): C13_history_free -- generate_paths yields the same entries, labels and outcome whatever distance annotations earlier calls left on the graph (agree-on-table congruence through all five traversals), C13_refuted_pinned keeps the defect of the pinned code"),
   ("C17", "own exception for unsupported constructs", "supported inputs with one legal out-of-dialect construct planted (45 JSON constructs, 43 regex patterns, 23 XSD insertions, 15 grammar dictionaries, 17 OpenAPI variants); the outcome must be a graph or an exception derived from FencesException; Coq: error-class lemmas of the models; own-exception theorems for the regex, grammar and XSD front ends and for the JSON generator on normal forms (C17_json_generator_own)"),
